@@ -222,6 +222,7 @@ Proof.
   - eapply (Hmix I); eassumption.
 Qed.
 End Layout.
+Set Default Proof Using "Type".
 
 (* ---------------------------------------------------------------- well-formed = the section's hypotheses *)
 Lemma wf_layout_inv m : wf_layout m -> exists L,
